@@ -440,7 +440,8 @@ def check(run: Run) -> None:
                                     hop_names.add(nm)
                 fl = R.flow(run, fa)
                 hop = lambda x: x.kind == "call" and x.name in hop_names and (x.name != "stop" or re.search(r"graph|child|active|view\(\)", x.recv))
-                guard_ok = re.compile(r"more:.*|.*(!=nullptr|==nullptr|nullptr!=.*|nullptr==.*)|.*has_value\(\)|.*started\(\)|.*stop_child_on_stop|.*valid\(\)")
+                guard_ok = re.compile(r"more:.*|.*(!=nullptr|==nullptr|nullptr!=.*|nullptr==.*)|.*has_value\(\)|.*started\(\)|.*stop_child_on_stop|.*valid\(\)"
+                                      r"|\w+<.*(slot_capacity|size)\(\)")  # the last form: a counted loop over the children (zero children = nothing to stop)
                 w = fl.reach([fl.start], avoid=hop, targets=lambda x: x.id == fl.cfg.exit, after_source=False,
                              edge_skip=lambda node, lab: node.kind == "cond" and guard_ok.fullmatch(node.label) is not None and lab == "F")
                 run.count(1, f"C14.f.{tu}.unconditional")
@@ -448,6 +449,48 @@ def check(run: Run) -> None:
                     run.finding("C14.f", f"{tu}:{cb}:conditional", f"stop callback {cb} can return without stopping its children (guarded by a "
                                 f"condition that is not a per-child existence test): " + fl.path_text(w), loc=fl.cfg.describe(w[0][0]))
         run.sites(n, 7, "owners")
+    with run.obligation("C14.f2", "K2+K7", "an owner that stops SEVERAL children in a loop does so best-effort: a child whose stop throws does not keep the "
+                        "remaining children from being stopped within the same stop pass (KNOWN FINDINGS F-C14-2 on the current tree)"):
+        n2 = 0
+        for tu, cb in OWNERS.items():
+            rel = RT + tu
+            fa = R.fn(run, rel, cb)
+            disp = {"remove_slot": "on_remove"} if tu == "mesh_node.cpp" else None
+            reach = R.call_closure(run, fa, [rel], depth=3, dispatch=disp)
+            is_child_stop = lambda c: R.callee_name(c) == "stop" and isinstance(c.fn, C.Member) and \
+                re.search(r"graph|child|active|view\(\)", R.Canon()(c.fn.obj)) is not None
+            chain = {id(fa): fa}
+            for f, c in reach:
+                chain[id(f)] = f
+            stops_in = {id(f): [c for c in R.calls(f) if is_child_stop(c)] for f in chain.values()}
+            reaches_stop = {f.fd.name for f in chain.values() if stops_in[id(f)]}
+            changed = True
+            while changed:
+                changed = False
+                for f in chain.values():
+                    if f.fd.name in reaches_stop:
+                        continue
+                    if any((disp or {}).get(R.callee_name(c), R.callee_name(c)) in reaches_stop for c in R.calls(f)):
+                        reaches_stop.add(f.fd.name)
+                        changed = True
+            for f in chain.values():
+                for l in R.loops(f):
+                    for k in R.calls(l.body):
+                        nm = (disp or {}).get(R.callee_name(k), R.callee_name(k))
+                        if not (is_child_stop(k) or (nm in reaches_stop and nm != f.fd.name)):
+                            continue
+                        n2 += 1
+                        run.count(1, f"C14.f2.{tu}")
+                        caps = [c for c in R.calls(l.body) if R.callee_name(c).split("::")[-1] in ("capture", "fallback_on_exception") and
+                                any(isinstance(a, C.Lambda) and R._contains(a, k) for a in c.args)]
+                        if not caps:
+                            run.finding("C14.f2", f"{tu}:{f.fd.name}:child-stop-loop-not-best-effort", f"{f.fd.qual} stops its children in a loop through "
+                                        f"`{R.Canon()(k)[:70]}` without a per-child capture: when one child's stop throws, the remaining children are not "
+                                        "stopped before run() returns (only when the storage is destroyed)", loc=f.loc(k))
+        run.sites(n2, 3, "per-child stop loops")
+
+    with run.obligation("C14.f3", "K7+K1", "try_except inherits the single-nested stop callback; GraphValue::reset stops a started graph (swallowing) before "
+                        "destroying its storage"):
         # try_except reuses the single nested descriptor (inherits its stop callback)
         fa = R.fn(run, RT + "try_except_node.cpp", "try_except_node")
         if not R.calls(fa, "single_nested_graph_node_descriptor"):
@@ -583,8 +626,10 @@ VARIANTS = [
     {"id": "d-after-start-dropped", "expect": "C14.d", "edits": [{"file": GRAPH, "find": "  rollback.release();\n  state.lifecycle_observers->notify_after_start_graph(graph);\n  graph_start_failed.release();", "replace": "  rollback.release();\n  graph_start_failed.release();"}]},
     {"id": "e-started-before-hook", "expect": "C14.e", "edits": [{"file": NODE, "find": "            if (callbacks(context).start) { callbacks(context).start(view, evaluation_time); }\n            state.started = true;", "replace": "            state.started = true;\n            if (callbacks(context).start) { callbacks(context).start(view, evaluation_time); }"}]},
     {"id": "e-stop-no-deactivate-on-throw", "expect": "C14.e", "edits": [{"file": NODE, "find": "            auto deactivate = UnwindCleanupGuard([&] { deactivate_input_slots(view, evaluation_time); });\n            if (callbacks(context).stop) { callbacks(context).stop(view, evaluation_time); }\n            deactivate.complete();", "replace": "            if (callbacks(context).stop) { callbacks(context).stop(view, evaluation_time); }\n            deactivate_input_slots(view, evaluation_time);"}]},
-    {"id": "f-reduce-stop-skips", "expect": "C14.f", "edits": [{"file": RT + "reduce_node.cpp", "find": "if (entry != nullptr && entry->graph.has_value()) { entry->graph.view().stop(); }\n            }\n            storage.evaluation_positions.clear();", "replace": "static_cast<void>(entry);\n            }\n            storage.evaluation_positions.clear();"}]},
-    {"id": "f-map-stop-guarded", "expect": "C14.f", "edits": [{"file": RT + "map_node.cpp", "find": "            remove_all_entries(view, context, storage, nullptr, nullptr,\n                               evaluation_time);\n            storage.unsubscribe_keys_noexcept();", "replace": "            if (storage.primed)\n            {\n                remove_all_entries(view, context, storage, nullptr, nullptr,\n                                   evaluation_time);\n            }\n            storage.unsubscribe_keys_noexcept();"}]},
+    {"id": "f-reduce-stop-skips", "expect": "C14.f", "edits": [{"file": RT + "reduce_node.cpp", "find": "                    if (entry != nullptr && entry->graph.has_value()) { entry->graph.view().stop(); }\n                });\n            }\n            storage.evaluation_positions.clear();", "replace": "                    static_cast<void>(entry);\n                });\n            }\n            storage.evaluation_positions.clear();"}]},
+    {"id": "f2-revert-fix-reduce-stop-not-best-effort", "expect": "C14.f2", "edits": [{"file": RT + "reduce_node.cpp", "find": "                failures.capture([&] {\n                    if (entry != nullptr && entry->graph.has_value()) { entry->graph.view().stop(); }\n                });", "replace": "                if (entry != nullptr && entry->graph.has_value()) { entry->graph.view().stop(); }"}]},
+    {"id": "f2-revert-fix-map-stop-not-best-effort", "expect": "C14.f2", "edits": [{"file": RT + "map_node.cpp", "find": "                failures.capture([&] {\n                    remove_entry_at_slot(view, context, storage, nullptr, nullptr, slot, evaluation_time);\n                });", "replace": "                remove_entry_at_slot(view, context, storage, nullptr, nullptr, slot, evaluation_time);"}]},
+    {"id": "f-map-stop-guarded", "expect": "C14.f", "edits": [{"file": RT + "map_node.cpp", "find": "            FirstExceptionRecorder failures;\n            for (std::size_t slot = 0; slot < storage.entries.slot_capacity(); ++slot)\n            {\n                failures.capture([&] {\n                    remove_entry_at_slot(view, context, storage, nullptr, nullptr, slot, evaluation_time);\n                });\n            }\n            storage.unsubscribe_keys_noexcept();", "replace": "            FirstExceptionRecorder failures;\n            for (std::size_t slot = 0; storage.primed && slot < storage.entries.slot_capacity(); ++slot)\n            {\n                failures.capture([&] {\n                    remove_entry_at_slot(view, context, storage, nullptr, nullptr, slot, evaluation_time);\n                });\n            }\n            storage.unsubscribe_keys_noexcept();"}]},
     {"id": "f-reset-no-stop", "expect": "C14.f", "edits": [{"file": GRAPH, "find": "    if (graph.valid() && graph.started()) {\n      static_cast<void>(fallback_on_exception(false, [&] {\n        graph.stop();\n        return true;\n      }));\n    }", "replace": "    static_cast<void>(graph);"}]},
     {"id": "g-guard-after-loop", "expect": "C14.g", "edits": [{"file": EXEC, "find": "            ImmediateCycleRecorder recorder;\n            bool                   recorded_cycle = false;\n", "replace": "            ImmediateCycleRecorder recorder;\n            bool                   recorded_cycle = false;\n            state.logger->flush();\n"},
                                                                {"file": EXEC, "find": "            auto stop_graph = UnwindCleanupGuard([&] {", "replace": "            state.logger->info(\"started\");\n            auto stop_graph = UnwindCleanupGuard([&] {"}]},
